@@ -9,6 +9,7 @@ package main
 import (
 	"bytes"
 	"fmt"
+	"math/rand/v2"
 	"os"
 	"path/filepath"
 	"strings"
@@ -143,3 +144,189 @@ var (
 	_ = sam.Reader
 	_ = bed.Reader
 )
+
+// "edges" units (C01–C05): every free-text field, one at a time, begins and /
+// or ends with each kind of blank byte (code that "cleans" lines or fields with
+// TrimSpace / Fields / TrimRight silently changes such values), with the field
+// in last position of its line and followed by further fields. Deterministic:
+// no seed decides whether a trailing blank in a last field is ever tried.
+var edgeBlanks = []string{" ", "  ", "\t", "\v", "\f", "\x00", "\x1c", "\x1f", "\x85", "\xa0", "\xc2\xa0", "\xc2\x85", "\xe1\x9a\x80", "\xe2\x80\x83", "\xe2\x80\xa8", "\xe2\x80\xa9", "\xe3\x80\x80", "\xef\xbb\xbf"}
+
+// fieldRecord builds record number j of a stream in which text field `field`
+// of the given format holds v, writes it to text and returns its expected
+// item. ok is false when v is outside the field's domain; skip is true when
+// the format cannot take a second record here.
+func fieldRecord(r *rand.Rand, format string, field int, v string, j int, text *bytes.Buffer) (it item, ok bool, skip bool) {
+	switch format {
+	case "fasta":
+		rec := genFastaRecord(r, pick(r, []int{0, 1, 79, 80, 81, 1 + r.IntN(100)}))
+		if j == 1 {
+			rec.Sequence = nil // what follows the name line is then the next record
+		}
+		if field == 0 {
+			rec.Name = []byte(v)
+		} else {
+			rec.Sequence = []byte(v)
+		}
+		rec.Write(text)
+		return item{Key: fastaKey(rec)}, true, false
+	case "fastq":
+		rec := genFastqRecord(r, len(v))
+		switch field {
+		case 0:
+			rec.Name = []byte(v)
+		case 1:
+			rec.Sequence = []byte(v)
+		default:
+			rec.Quals = []byte(v)
+		}
+		rec.Write(text)
+		return item{Key: fastqKey(rec)}, true, false
+	case "sam":
+		rec := genSAM(r)
+		if field < 7 && j == 1 {
+			rec.Tags = nil // the text field is then (one of) the last of its line
+		}
+		switch field {
+		case 0:
+			if strings.HasPrefix(v, "@") {
+				return item{}, false, false
+			}
+			rec.Qname = v
+		case 1:
+			rec.Rname = v
+		case 2:
+			rec.Cigar = v
+		case 3:
+			rec.Rnext = v
+		case 4:
+			rec.Seq = v
+		case 5:
+			rec.Qual = v
+		case 6:
+			rec.Qual, rec.Tags = v, map[string]any{}
+		default: // a Z tag that sorts last, next to tags that sort first
+			rec.Tags = map[string]any{"zz": v, "AA": 1, "Ab": "x"}
+		}
+		rec.Write(text)
+		return item{Key: samKey(rec)}, true, false
+	case "bed":
+		if j > 0 {
+			return item{}, true, true // BED streams hold one field count: one record per stream
+		}
+		n := 4 + int(r.IntN(9))
+		if r.IntN(2) == 0 {
+			n = 4 // Name is the last field of the line
+		}
+		if field == 0 {
+			n = 3 + r.IntN(10)
+		}
+		rec := genBED(r, n)
+		if field == 0 {
+			if strings.HasPrefix(v, "#") {
+				return item{}, false, false
+			}
+			rec.Chrom = v
+		} else {
+			rec.Name = v
+		}
+		rec.Write(text)
+		return item{Key: bedKey(bedExpected(rec))}, true, false
+	case "newick":
+		root, nodes := randomTree(r, 2+r.IntN(6), r.IntN(4))
+		decorate(r, nodes)
+		switch field {
+		case 0:
+			root.Name = v
+		case 1:
+			nodes[len(nodes)-1].Name = v
+		default:
+			nodes[len(nodes)/2].Name = v
+			nodes[len(nodes)/2].Distance = 0
+		}
+		root.Write(text)
+		return item{Key: treeKey(root)}, true, false
+	}
+	panic("fieldRecord: " + format)
+}
+
+var textFieldCount = map[string]int{"fasta": 2, "fastq": 3, "sam": 8, "bed": 2, "newick": 3}
+
+func edgeUnit(format string) func(c *Ctx) {
+	return func(c *Ctx) {
+		cd := codecByName(format)
+		idx := int64(0)
+		for _, bl := range edgeBlanks {
+			for pos := 0; pos < 4; pos++ { // leading, trailing, both, nothing but the blank
+				for field := 0; field < textFieldCount[format]; field++ {
+					c.Case(idx, func(k *K) {
+						r := k.Rand()
+						if (format == "sam" || format == "bed") && strings.Contains(bl, "\t") {
+							return
+						}
+						core := "v" + fmt.Sprint(r.IntN(90)+10)
+						val := map[int]string{0: bl + core, 1: core + bl, 2: bl + core + bl, 3: bl}[pos]
+						fieldRoundTrip(k, cd, format, field, val, "edge-blank", "a value with a blank byte at its edge")
+						k.Count("edge_blank_cases", 1)
+					})
+					idx++
+				}
+			}
+		}
+	}
+}
+
+// fieldRoundTrip writes two records whose text field `field` is val (the record
+// alone would hide a "last line" effect), reads them back and compares.
+func fieldRoundTrip(k *K, cd *codec, format string, field int, val, kind, what string) {
+	r := k.Rand()
+	var text bytes.Buffer
+	var want []item
+	for j := 0; j < 3; j++ {
+		it, ok, skip := fieldRecord(r, format, field, val, j, &text)
+		if !ok {
+			return
+		}
+		if !skip {
+			want = append(want, it)
+		}
+	}
+	x := text.Bytes()
+	k.Input("format", format)
+	k.Input("field", field)
+	k.Input("value", func() string { return fmt.Sprintf("%.300q (%d bytes)", val, len(val)) })
+	k.Input("text", func() string { return describeText(x) })
+	got, over := collect(cd.seq(bytes.NewReader(x)), len(want)+3)
+	if over || !sameTrace(got, want) {
+		k.Failf(kind, "%s: field %d = %.200q (%s, %d bytes) does not survive write -> read:\n got  %s\n want %s", format, field, val, what, len(val), traceString(got), traceString(want))
+	}
+	k.Nontrivial([]byte(format), []byte(val), []byte{byte(field)})
+}
+
+// "fieldlens" units (C01–C05): every text field, one at a time, at every
+// length 0..300 (3000 in the thorough tier) — the length sweeps of the
+// "lengths" units cover the main payload field only (a writer that assembles
+// lines in a fixed scratch buffer is wrong for ONE name length).
+func lengthUnit(format string) func(c *Ctx) {
+	return func(c *Ctx) {
+		cd := codecByName(format)
+		maxLen := c.N(300, 3000)
+		idx := int64(0)
+		for field := 0; field < textFieldCount[format]; field++ {
+			for l := 0; l <= maxLen; l++ {
+				c.Case(idx, func(k *K) {
+					r := k.Rand()
+					alpha := []byte(pick(r, []string{"abcdefghij", "ACGTN", "ab cd", "a'b_c", "IIII#5"}))
+					if format == "fasta" && field == 1 {
+						alpha = []byte("ACGTNacgtn")
+					}
+					val := string(randSeq(r, alpha, l))
+					fieldRoundTrip(k, cd, format, field, val, "field-length", "a field of this exact length")
+					k.Count("field_length_cases", 1)
+				})
+				idx++
+			}
+		}
+		c.Exhaustive(fmt.Sprintf("fieldlens: every length 0..%d of each of the %d text fields of %s", maxLen, textFieldCount[format], format))
+	}
+}
